@@ -57,7 +57,7 @@ def run_seg(c):
     hb = np.append(b, 0.0 if c["inf"] == "b" else 1.0)
     how = c.get("derive")
     S, f = call(f"segment{d}:construct" + (f":{how}" if how else ""), Z.derive_moved, lambda rows: Segment(Point(rows[0]), Point(rows[1])),
-                np.array([ha * sa, hb * sb]), how, c.get("move", [1, 2, 3]), lambda rows0: Point(rows0[0]))
+                np.array([ha * sa, hb * sb]), how, c.get("move", [1, 2, 3]), lambda rows0: Point(rows0[0]), None, bool(c["inf"]))
     if f:
         return Batch(1, 0, [(f, c)], [])
     # query points
